@@ -186,6 +186,13 @@ func (w *World) applyFault(f Fault) {
 			w.fault("crash")
 			w.logf("FAULT crash n%d", f.Node)
 		}
+	case "slownode":
+		if nd := w.primary(f.Node); nd != nil {
+			nd.slowUntil = w.now() + time.Duration(f.ForMs)*time.Millisecond
+			nd.slowExtra = time.Duration(f.DelayMs) * time.Millisecond
+			w.fault("slownode")
+			w.logf("FAULT slownode n%d +%dms for %dms", f.Node, f.DelayMs, f.ForMs)
+		}
 	case "linkdown":
 		until := w.now() + time.Duration(f.ForMs)*time.Millisecond
 		w.net.linkDown[[2]int{f.Node, f.Peer}] = until
